@@ -266,6 +266,16 @@ func c16Finalise(c *fw.Ctx, i int) {
 		c.Describe("%s spec=%+v", desc, sp)
 		c.Cell("%s/%s/%s+%s", way, cls, codec[0], codec[1])
 		ensureLong()
+		// players that arrive while the name has no input (between two publishers): they belong
+		// to the next incarnation and must be served by it like anybody else
+		var gapJoin []*c16Cons
+		if cyc > 0 {
+			for _, kind := range []string{"rtmp", "flv"} {
+				if x, err := c16StartCons(s, kind, name, inc); err == nil {
+					gapJoin = append(gapJoin, x)
+				}
+			}
+		}
 
 		from := s.Notify.Len()
 		nStubBefore := len(stub.Snapshot())
@@ -288,7 +298,13 @@ func c16Finalise(c *fw.Ctx, i int) {
 		var joiners []*c16Cons
 		joinAt := nHdr + 1 + r.Intn(8)
 		statChecked := false
+		// an input that goes silent has usually been healthy for a long time first: in half of the
+		// "idle" endings the last messages are spread over more than two check periods (2 s each)
+		slowTail := way == "idle" && (i+inc)%2 == 0 && n > nHdr+4
 		for k, m := range msgs[:n] {
+			if slowTail && k >= n-16 {
+				time.Sleep(300 * time.Millisecond)
+			}
 			if k == joinAt {
 				waitProcessed()
 				for _, kind := range []string{"rtmp", "flv", "ts"} {
@@ -401,6 +417,42 @@ func c16Finalise(c *fw.Ctx, i int) {
 			for _, got := range x.incs() {
 				if got >= 0 && got != inc {
 					c.Violate("leak/joiner-"+x.kind, fmt.Sprintf("a %s consumer that joined incarnation %d received data tagged with incarnation %d | %s", x.kind, inc, got, desc), nil)
+					break
+				}
+			}
+			x.close()
+		}
+		// gap joiners: only this incarnation's data, and they do get it (the first deliverable frame
+		// is a key frame when the incarnation has video, any audio frame when it has not)
+		deliverable := 0
+		for _, m := range msgs[:n] {
+			if m.Frame < 0 {
+				continue
+			}
+			f := es.Frames[m.Frame]
+			if (codec[0] == "" && !f.Video) || (codec[0] != "" && f.Video && f.Key) || (deliverable > 0) {
+				deliverable++
+			}
+		}
+		for _, x := range gapJoin {
+			x := x
+			if way != "dispose" && deliverable >= 6 && !(x.kind == "rtmp" && conf.MergeWrite > 0) {
+				got := srv.WaitFor(2*time.Second, func() bool {
+					for _, g := range x.incs() {
+						if g == inc {
+							return true
+						}
+					}
+					return false
+				})
+				c.Count("gap_joiners_judged", 1)
+				if !got {
+					c.Violate("gap-joiner-starved/"+x.kind, fmt.Sprintf("a %s consumer that joined while the name had no input received nothing of the next publisher although %d deliverable frames were published | %s", x.kind, deliverable, desc), nil)
+				}
+			}
+			for _, got := range x.incs() {
+				if got >= 0 && got != inc {
+					c.Violate("leak/gap-joiner-"+x.kind, fmt.Sprintf("a %s consumer that joined before incarnation %d started received data tagged with incarnation %d | %s", x.kind, inc, got, desc), nil)
 					break
 				}
 			}
@@ -1299,7 +1351,7 @@ func init() {
 		},
 		Setup:       c16Setup,
 		CaseTimeout: func(string) time.Duration { return 4 * time.Minute },
-		Rule: "whole-server runs with HLS (disk), FLV and TS recorders, relay push to a stub target, the stream hook and RTMP/FLV/TS consumers. Finalise scenarios (3 of 5 cases with an RTMP publisher; 1 of 5 with an RTSP publisher over interleaved TCP or UDP ended by close / kick / silence / TEARDOWN, outputs checked structurally): 3–5 incarnations of one stream name with changing codec pairs (AVC/HEVC/enhanced HEVC/none × AAC/none); each incarnation is cut at a seeded instant (nothing sent, headers only, right after a key frame, after an audio frame with batched audio pending, mid-stream, complete) by close / API kick / going silent (check interval 2 s) / server Dispose. Observed right after each end: stream-hook OnStop calls = 1 and OnMsg calls = messages published; push target connection closed; exactly one FLV and one TS recording, FLV parses to EOF and equals the published audio/video messages, TS passes the C06 frame oracle to the last video and audio frame (flush); live and record playlists parse, one ENDLIST, every segment file listed and present, segments pass the frame oracle to the last frame; idle publisher gets pub_stop ≤ 2·interval+3 s+2 s and its socket closes; joiners of an incarnation see only its tags, long-lived consumers never see an older incarnation after a newer one; stat codec fields equal the current input's; the group leaves /api/stat/all_group ≤ 8 s after the last session. Re-publish scenarios (1 of 10): cleanup_mode 1/2 with a 1.5 s delayed directory cleanup, a second publisher of the name arriving at once and staying live across the first one's cleanup timer — live playlist and listed segments must be on disk while it is live and finalised when it ends, directory removed after the last end. Late-push scenarios (1 of 10): the push target withholds its answer to `publish` until the publisher has left by close or kick (and, alternately, answers in time) — its connection must be closed within 4 s either way. Resource scenarios (1 of 5): 3 warm-up cycles, baseline goroutines and /proc/self/fd with no session left, 6 (thorough 12) cycles with RTMP/FLV/TS/RTSP-TCP/RTSP-UDP consumers, abandoned RTSP DESCRIBE/SETUP, aborted RTMP handshakes, HLS and API requests, ends by close/kick/consumers-first; growth ≥ 1 per 2 cycles is a leak. cell = end way × end instant × codec pair.",
+		Rule: "whole-server runs with HLS (disk), FLV and TS recorders, relay push to a stub target, the stream hook and RTMP/FLV/TS consumers. Finalise scenarios (3 of 5 cases with an RTMP publisher; 1 of 5 with an RTSP publisher over interleaved TCP or UDP ended by close / kick / silence / TEARDOWN, outputs checked structurally): 3–5 incarnations of one stream name with changing codec pairs (AVC/HEVC/enhanced HEVC/none × AAC/none); each incarnation is cut at a seeded instant (nothing sent, headers only, right after a key frame, after an audio frame with batched audio pending, mid-stream, complete) by close / API kick / going silent (check interval 2 s; in half of these after having trickled its last messages over 4.8 s, i.e. after being found alive by at least two checks) / server Dispose. Observed right after each end: stream-hook OnStop calls = 1 and OnMsg calls = messages published; push target connection closed; exactly one FLV and one TS recording, FLV parses to EOF and equals the published audio/video messages, TS passes the C06 frame oracle to the last video and audio frame (flush); live and record playlists parse, one ENDLIST, every segment file listed and present, segments pass the frame oracle to the last frame; idle publisher gets pub_stop ≤ 2·interval+3 s+2 s and its socket closes; joiners of an incarnation see only its tags; players that join while the name has no input see only the next incarnation's tags and do receive its frames; long-lived consumers never see an older incarnation after a newer one; stat codec fields equal the current input's; the group leaves /api/stat/all_group ≤ 8 s after the last session. Re-publish scenarios (1 of 10): cleanup_mode 1/2 with a 1.5 s delayed directory cleanup, a second publisher of the name arriving at once and staying live across the first one's cleanup timer — live playlist and listed segments must be on disk while it is live and finalised when it ends, directory removed after the last end. Late-push scenarios (1 of 10): the push target withholds its answer to `publish` until the publisher has left by close or kick (and, alternately, answers in time) — its connection must be closed within 4 s either way. Resource scenarios (1 of 5): 3 warm-up cycles, baseline goroutines and /proc/self/fd with no session left, 6 (thorough 12) cycles with RTMP/FLV/TS/RTSP-TCP/RTSP-UDP consumers, abandoned RTSP DESCRIBE/SETUP, aborted RTMP handshakes, HLS and API requests, ends by close/kick/consumers-first; growth ≥ 1 per 2 cycles is a leak. cell = end way × end instant × codec pair.",
 		Assumptions: []string{"recording and HLS files of one incarnation are inspected and then removed by the harness before the next incarnation starts (lal names recordings by second, so back-to-back incarnations would otherwise share a file name)", "goroutine and descriptor counts include the harness's own; every harness connection is closed before counting and only growth proportional to the number of cycles is judged"},
 		MinCells: 10,
 		Run: func(c *fw.Ctx, i int) {
